@@ -26,8 +26,8 @@ Proved here, for paths of any length over groups of any depth (`pathSum` = the f
                             delay is at most the delay of every real path).
 * `cycle_check_exact`       both directions together: rejected ⟺ an unresolved cycle exists, whenever the check decides
 * `no_assertion_uniform`    on such tables no assert of the delay arithmetic can fire inside the check
-* `exact_of_checks`         the same from the three executable checks the driver evaluates on every generated graph
-                            (`w.cychyp`: `shapedB`, `nodupKeysB`, `constCutoffB`)
+* `exact_of_checks`, `exact_of_uniformB`  the same from the executable checks the driver evaluates on every generated graph
+                            (`w.cychyp`: `shapedB`, `nodupKeysB`, and `constCutoffB` resp. the complete decision `uniformB`)
 
 NOT proved (see DESIGN.md): that the worklist empties within the model's fuel (termination of the worklist; in the
 D7 class it genuinely need not terminate) and completeness for grouped scenarios whose cutoffs differ between pairs but not
@@ -254,6 +254,25 @@ theorem exact_of_checks (sims : List SimCfg) (orc : List Nat) (h1 : shapedB sims
   cases e with
   | assertion => exact no_assertion_uniform sims orc hS hU
   | fuel => exact hfuel
+
+/-- … and with the complete executable decision of uniformity (`uniformB`: smallest = largest path cutoff for every pair,
+on tables checked to be closed) instead of the sufficient `constCutoffB` — this covers the grouped scenarios too -/
+theorem exact_of_uniformB (sims : List SimCfg) (orc : List Nat) (h1 : shapedB sims = true) (h2 : nodupKeysB sims = true)
+    (h3 : uniformB sims = true) (hfuel : ensureNoCycles sims orc ≠ .error .fuel) :
+    (∃ p, ensureNoCycles sims orc = .cycle p) ↔ ∃ s p d, RealPath sims s s p d ∧ d.isZero = true := by
+  have hS := shapedB_sound h1
+  have hU := uniformB_sound h3
+  apply cycle_check_exact sims orc hS (nodupKeysB_sound h2) hU
+  intro e
+  cases e with
+  | assertion => exact no_assertion_uniform sims orc hS hU
+  | fuel => exact hfuel
+
+/-- non-vacuity: A and B in one group with a weak back edge, X outside feeding A: cutoffs 2 and 1, uniform, accepted -/
+example : let sims : List SimCfg :=
+      [ { depth := 2, inputDelays := [(1, ⟨2, 2, [0, 1]⟩), (2, ⟨1, 1, [0, 0]⟩)] }, { depth := 2, inputDelays := [(0, ⟨2, 2, [0, 0]⟩)] }, { depth := 1 } ]
+    shapedB sims = true ∧ nodupKeysB sims = true ∧ constCutoffB sims = false ∧ uniformB sims = true ∧ ensureNoCycles sims [] = .ok := by
+  decide
 
 /-- non-vacuity of the completeness direction: A → B plain, B → A time-shifted satisfies the three checks and is accepted -/
 example : let sims : List SimCfg := [{ inputDelays := [(1, ⟨1, 1, [1]⟩)] }, { inputDelays := [(0, ⟨1, 1, [0]⟩)] }]
